@@ -5,7 +5,7 @@
 (* The harness logs, per call: event, arguments, outcome (ok/err/panic),   *)
 (* result handle, the projected post-state, the position index and what    *)
 (* the public API answers.  No expected value is computed outside TLC.     *)
-EXTENDS StamStore, StamApi, Json, IOUtils
+EXTENDS StamApi, StamRead, Json, IOUtils
 
 Rec == ndJsonDeserialize(IOEnv.TRACE)
 
@@ -52,7 +52,6 @@ TextualOrderOK(p) ==
 
 \* C01 / C12: the position index holds exactly the begins/ends of the known selections (plus
 \* configuration-dependent milestones, which carry no selections) and every entry has the right byte offset
-ByteOf(text, p) == SumSeq([i \in 1..p |-> text[i] % 10])
 PosOK(s, pos) ==
     /\ Len(pos) = Len(s.res)
     /\ \A r \in DOMAIN s.res :
@@ -91,7 +90,11 @@ Mutating(r) ==
             /\ Resync(r, logged)
 
 ReadOnly(r) ==
-    LET v == ReadOK(st, r)
+    LET v == IF r.ev = "Lookup" THEN ReadOK(st, r)
+             ELSE IF r.ev \in ReadEvents
+                  THEN LET exp == ReadExpected(st, r.ev, r.a)
+                       IN [ok |-> r.outcome = "ok" /\ ReadMatches(r.ev, r.a, exp, r.api), expected |-> exp]
+                  ELSE [ok |-> FALSE, expected |-> [unknown |-> r.ev]]
     IN IF v.ok THEN UNCHANGED <<st, skip, bad>>
        ELSE /\ bad' = bad + 1 /\ UNCHANGED <<st, skip>>
             /\ PrintT(<<"MISMATCH", l, ToJson([readonly |-> TRUE, expected |-> v.expected])>>)
